@@ -415,6 +415,9 @@ def run(res, tier, seed):
     trees = [("xmlish", c08lib.gen_xmlish(rng)) for _ in range(ntrees - nhtml)]
     for k in range(nhtml):
         trees.append(("htmlish", c08lib.gen_htmlish(rng, root=("HTML" if k % 7 == 3 else "html"), lead_comment=(k % 9 == 5))))
+    # a supplementary character whose surrogate pair straddles the 512-unit (and 1024-unit) output buffers, in text and in an attribute
+    for k in (510, 511, 512, 1023):
+        trees.append(("xmlish", [c08lib.E("r", c08lib.T("x" * k + "\U0001F600" + "tail"), a=[["t", "y" * (k - 8) + "\U0001D11E"]])]))
     # ---- executions: (tree, [vectors]) in chunks, each starting with the reference vector
     execs = []
     for t in shapes:
